@@ -279,6 +279,8 @@ type inst struct {
 	edge   func(o *ssa.Phi) (AVal, bool)
 	parent *inst
 	locSl  []string
+	// entryVal: header symbol of an integer loop phi -> the value it has on the loop's only entry edge
+	entryVal map[string]Lin
 }
 
 // Run analyses fn as an entry point: parameters are unknown (slices have a
@@ -322,6 +324,7 @@ func (a *Analyzer) call(fn *ssa.Function, args []AVal, st *State, depth int, ctx
 func (in *inst) runOnce(args []AVal, st0 *State) {
 	fn := in.fn
 	in.env = map[ssa.Value]AVal{}
+	in.entryVal = map[string]Lin{}
 	in.rets = nil
 	in.out = map[*ssa.BasicBlock]*State{}
 	for i, p := range fn.Params {
@@ -477,7 +480,8 @@ func rpo(fn *ssa.Function) []*ssa.BasicBlock {
 // templates: candidate facts about a merged / loop-carried integer v.
 func (in *inst) templates() []string {
 	// "gem1": the index of a range loop starts at -1 and is incremented before it is used
-	ts := []string{"ge1", "ge0", "gem1"}
+	// "leEntry"/"geEntry": a loop-carried value that never exceeds / never falls below the value it enters the loop with
+	ts := []string{"ge1", "ge0", "gem1", "leEntry", "geEntry"}
 	var ps []string
 	for p := range in.params {
 		ps = append(ps, p)
@@ -534,6 +538,18 @@ func (in *inst) templateHolds(st *State, t string, hv, inc AVal, _ bool) bool {
 			return Proves(st.Facts, GE(inc.Int, Const(-1)))
 		case t == "ge1":
 			return Proves(st.Facts, GE(inc.Int, Const(1)))
+		case t == "leEntry" || t == "geEntry":
+			if hv.Kind != KInt || hv.Int.K == nil {
+				return false
+			}
+			e, ok := in.entryVal[hv.Int.String()]
+			if !ok {
+				return false
+			}
+			if t == "leEntry" {
+				return Proves(st.Facts, LE(inc.Int, e))
+			}
+			return Proves(st.Facts, GE(inc.Int, e))
 		case strings.HasPrefix(t, "le:"):
 			if pl, ok := in.params[t[3:]]; ok {
 				return Proves(st.Facts, LE(inc.Int, pl))
@@ -578,6 +594,14 @@ func (in *inst) assumeTemplate(st *State, t string, v AVal) {
 		st.add(GE(x, Const(-1)))
 	case t == "ge1":
 		st.add(GE(x, Const(1)))
+	case t == "leEntry" || t == "geEntry":
+		if e, ok := in.entryVal[x.String()]; ok && v.Kind == KInt {
+			if t == "leEntry" {
+				st.add(LE(x, e))
+			} else {
+				st.add(GE(x, e))
+			}
+		}
 	case strings.HasPrefix(t, "le:"):
 		if pl, ok := in.params[t[3:]]; ok {
 			st.add(LE(x, pl))
@@ -711,6 +735,26 @@ func (in *inst) merge(b *ssa.BasicBlock, preds []*State, predBlocks []*ssa.Basic
 			if ph, ok := ins.(*ssa.Phi); ok {
 				phis = append(phis, ph)
 				in.env[ph] = in.a.freshOf(st, ph.Type(), "phi:"+ph.Name())
+			}
+		}
+		// the value each integer phi enters the loop with (one entry edge only)
+		for _, ph := range phis {
+			v := in.env[ph]
+			if v.Kind != KInt {
+				continue
+			}
+			n := 0
+			var e AVal
+			for i, pb := range b.Preds {
+				for j, q := range predBlocks {
+					if q == pb && !l.Blocks[pb] {
+						n++
+						e = in.val(preds[j], ph.Edges[i])
+					}
+				}
+			}
+			if n == 1 && e.Kind == KInt {
+				in.entryVal[v.Int.String()] = e.Int
 			}
 		}
 		for _, ph := range phis {
@@ -1388,14 +1432,19 @@ func (in *inst) instr(st *State, ins ssa.Instruction) {
 		in.env[x] = in.doCall(st, x)
 	case *ssa.Return:
 		var res []AVal
-		for _, r := range x.Results {
+		for ri, r := range x.Results {
 			v := in.val(st, r)
 			if n, ok := st.Nil[r]; ok && v.IsNil == 0 {
 				v.IsNil = n
 			}
+			// functions with a defer return through result cells (`*r = v; rundefers; t = *r; return t`)
+			under := ir.ReturnOperand(x, ri)
+			if n, ok := st.Nil[under]; ok && v.IsNil == 0 {
+				v.IsNil = n
+			}
 			if v.Kind == KIface && v.IsNil == 0 {
 				// an error built by a call (fmt.Errorf) or loaded from a package-level variable is non-nil
-				switch y := r.(type) {
+				switch y := under.(type) {
 				case *ssa.Call:
 					if f := y.Common().StaticCallee(); f != nil && f.Pkg != nil && (f.Pkg.Pkg.Path() == "fmt" || f.Pkg.Pkg.Path() == "errors") {
 						v.IsNil = -1
